@@ -49,6 +49,23 @@ def node_repr(n, variant):
 RAW_NODE = ['abc', '', '5.0', '1e3', 'x7']
 
 
+class _BadInt:
+    """int() of it raises something other than TypeError/ValueError; str() is harmless."""
+    def __init__(self, exc):
+        self.exc = exc
+
+    def __int__(self):
+        raise self.exc('verif: refused')
+
+    def __str__(self):
+        return 'bad'
+
+
+# values whose conversion raises at different points of Entity.__setitem__
+BAD_NODE = [lambda: float('inf'), lambda: float('nan'), lambda: float('-inf'), lambda: _BadInt(OverflowError),
+            lambda: _BadInt(RuntimeError), lambda: _BadInt(KeyError), lambda: 1e400, lambda: _BadInt(ZeroDivisionError)]
+
+
 # ------------------------------------------------------------------ rendering a Doc as VMF text
 
 def _solid_text(out, ind, sd, hidden):
@@ -278,6 +295,15 @@ class Impl:
             e = self._reg(op[1], V.Entity)
             if e is not None and op[2] is not None:
                 e[['nodeid', 'NODEID', 'NodeId'][self.step_no % 3]] = self._node_val(op[2])
+        elif name == 'setnode_raise':
+            # search-only (the model has no such step): an assignment the implementation may refuse with an
+            # exception; the caller catches it and keeps using the map. Whatever happened, ids must stay unique.
+            e = self._reg(op[1], V.Entity)
+            if e is not None:
+                try:
+                    e[['nodeid', 'NODEID', 'NodeId'][self.step_no % 3]] = BAD_NODE[op[2] % len(BAD_NODE)]()
+                except Exception:
+                    pass
         elif name == 'delnode':
             e = self._reg(op[1], V.Entity)
             if e is not None:
